@@ -150,7 +150,7 @@ CLAIMS = {
         note="The real scheduler is steered, not enumerated; exhaustiveness is at the model level. HTTP producers are covered by C20."),
     "C14": dict(
         category="model_checking", design_ref="4/C14",
-        technique="TLC model checking of Invoke.tla (invoke life cycle with racing child events, completion and cancellation) + trace validation of recorded parent/child scenarios (TraceC14.tla)",
+        technique="TLC model checking of Invoke.tla and Platform.tla (invoke life cycle; composition with timers and cancellation cascade) + trace validation of recorded parent/child/grandchild scenarios (TraceC14.tla, TracePlatform.tla), scenarios partly simulated by TLC from Platform.tla",
         text="Invoke.tla (a parent with an invoking state, a child that sends events and may finish, cancellation on exit, the "
              "dequeue filter) is model-checked for InvokeOncePerStableEntry, NothingAfterCancel and DoneInvokeOnceAndLast over "
              "all interleavings. Recorded scenarios (parent with a transient invoking state, two simultaneous invokes - one "
@@ -161,7 +161,12 @@ CLAIMS = {
              "autoforward children, param and namelist values only for declared data, done.invoke once and only for children that finished "
              "- and processed whenever it was in the queue before the host sent the event that leaves the state; invokes with explicit and "
              "with generated ids, an invoke whose argument fails (started at most once), every session ended after its parent. Invoke.tla "
-             "also describes the filter the implementation used before repair d0e4562 (per invoke id) and TLC must keep refuting it.",
+             "also describes the filter the implementation used before repair d0e4562 (per invoke id) and TLC must keep refuting it. "
+             "Platform.tla composes invoke, timers and cancellation over a three-level invoke tree (parent, child, grandchild; events relayed "
+             "upwards, commands downwards, two-step exit) and is model-checked for NothingAfterCancel, DoneOnceAndLast, NoOrphan, AtMostOnce "
+             "(+ liveness OrphansEnd, QueuesDrain) with three refuted variants; behaviours simulated from it and directed scenarios "
+             "(also under a lock-acquisition delay that widens the window between done.invoke and the drop of the finished session) "
+             "are run in the interpreter and judged by TracePlatform.tla.",
         note="Timings are steered (settle pauses, jitter, back-to-back sends), not enumerated; the race outcomes are enumerated only "
              "in Invoke.tla. Whether <finalize> also runs for done.invoke itself is not judged. Only inline <content> children."),
     "C15": dict(
@@ -187,7 +192,9 @@ CLAIMS = {
              "absent or generated through idlocation and cancelled through the location; back-to-back pairs with fractional-millisecond delays); "
              "marks before and after each <send>/<cancel> and at reception give time intervals, and TraceC16.tla (which also "
              "computes the expected milliseconds from the spelling) rejects early, duplicate, lost, wrongly valued, "
-             "delivered-after-cancel, delivered-after-termination and out-of-due-order deliveries whenever the intervals make the case certain.",
+             "delivered-after-cancel, delivered-after-termination and out-of-due-order deliveries whenever the intervals make the case certain. "
+             "The scenarios of Platform.tla (timers of invoked children and grandchildren racing their completion and cancellation, also with a "
+             "delayed drop of the finished session) are run as well; TracePlatform.tla rejects a delivery whose sender had ended before the event was due.",
         note="Real time is measured, not controlled: cases inside the measurement uncertainty are not judged; a timer later than 400 ms counts as lost. "
              "Thread interleavings of timer and session are not enumerated."),
     "C17": dict(
